@@ -450,6 +450,58 @@ theorem addnoc_refuses_existing_fabric (t : Time) (root : Cert) (k : KeyId) (fs 
   rw [hf] at h1; cases h1
   exact h2 _ hd ⟨rfl, rfl⟩
 
+/-- … wherever in the table it sits, in particular BEHIND another fabric with the same fabric id under another
+root: a fabric is identified by (fabric id, root public key) together, the check runs over the whole table -/
+theorem addnoc_refuses_existing_fabric_any_position (t : Time) (root : Cert) (k : KeyId)
+    (pre post : List FabricEntry) (noc : Cert) (icac : Option Cert) (fid : Nat)
+    (hf : fabricIdOf noc.subject = some fid) :
+    InstallRejected t root k (pre ++ { fabricId := fid, rootPubKey := root.pubKey } :: post) noc icac :=
+  addnoc_refuses_existing_fabric t root k _ noc icac fid hf (by simp)
+
+/-- and the code says so: an otherwise acceptable AddNOC for an installed (id, root key) pair is answered with
+`NocFabricConflict`, whatever else is installed before or after it -/
+theorem addnoc_conflict_error (t : Time) (root : Cert) (k : KeyId) (pre post : List FabricEntry)
+    (noc : Cert) (icac : Option Cert) (fid : Nat) (hv : validateInstall t noc icac root = .ok ())
+    (hk : noc.pubKey = k) (hf : fabricIdOf noc.subject = some fid) :
+    addNoc t root k (pre ++ { fabricId := fid, rootPubKey := root.pubKey } :: post) noc icac =
+      .error .nocFabricConflict := by
+  unfold addNoc
+  have : (pre ++ ({ fabricId := fid, rootPubKey := root.pubKey } : FabricEntry) :: post).any
+      (fun f => fid == f.fabricId && root.pubKey == f.rootPubKey) = true := by simp
+  simp [hv, hk, hf, this]
+
+/-- the table a sequence of commissioning rounds builds: an accepted AddNOC appends its fabric -/
+def installStep (t : Time) (k : KeyId) (fabs : List FabricEntry) (req : Cert × Cert × Option Cert) :
+    List FabricEntry :=
+  match addNoc t req.1 k fabs req.2.1 req.2.2 with
+  | .ok (fid, _) => fabs ++ [{ fabricId := fid, rootPubKey := req.1.pubKey }]
+  | .error _ => fabs
+
+/-- **no sequence of installs ever yields two fabrics with the same (fabric id, root key)** -/
+theorem install_sequence_distinct (t : Time) (k : KeyId) (reqs : List (Cert × Cert × Option Cert)) :
+    ∀ fabs : List FabricEntry, fabs.Nodup → (reqs.foldl (installStep t k) fabs).Nodup := by
+  induction reqs with
+  | nil => intro fabs h; exact h
+  | cons r rs ih =>
+    intro fabs h
+    apply ih
+    unfold installStep
+    cases hr : addNoc t r.1 k fabs r.2.1 r.2.2 with
+    | error e => exact h
+    | ok p =>
+      obtain ⟨fid, n⟩ := p
+      have hv := (install_iff_valid t r.1 k fabs r.2.1 r.2.2).1 ⟨_, hr⟩
+      obtain ⟨hfid, _⟩ := addNoc_identity t r.1 k fabs r.2.1 r.2.2 fid n hr
+      obtain ⟨fid', h1, h2⟩ := hv.2.2.2
+      rw [hfid] at h1; cases h1
+      rw [List.nodup_append]
+      refine ⟨h, by simp, ?_⟩
+      intro a ha b hb
+      simp only [List.mem_cons, List.not_mem_nil, or_false] at hb
+      rw [hb]
+      intro heq
+      exact h2 a ha (by rw [heq]; exact ⟨rfl, rfl⟩)
+
 /-- a fabric with the same id under another root, or another id under the same root, is no obstacle -/
 theorem addnoc_other_fabrics_ok (t : Time) (root : Cert) (k : KeyId) (fs : List FabricEntry)
     (noc : Cert) (icac : Option Cert) (h : InstallValid t root k [] noc icac) (fid : Nat)
@@ -620,6 +672,13 @@ example : caseAccept exT exFabric { exNoc with issuer := [.nodeId 8, .fabricId 7
 example : addNoc exT exRoot 9 [] exNocDirect (some exRoot) = .error .nocInvalidNoc := by rfl
 example : addNoc exT exRoot 4 [] exNoc (some exIcac) = .error .nocInvalidPublicKey := by rfl
 example : addNoc exT exRoot 9 [⟨7, 0⟩] exNoc (some exIcac) = .error .nocFabricConflict := by rfl
+-- the three-step sequence: the node is on (root key 3, id 7); it joins (root key 0, id 7) — legal; a further fully
+-- valid AddNOC for (root key 0, id 7) is refused although the FIRST fabric with id 7 has another root
+example : addNoc exT exRoot 9 [⟨7, 3⟩] exNoc (some exIcac) = .ok (7, 5) := by rfl
+example : addNoc exT exRoot 9 [⟨7, 3⟩, ⟨7, 0⟩] exNoc (some exIcac) = .error .nocFabricConflict := by rfl
+example : ¬ InstallValid exT exRoot 9 [⟨7, 3⟩, ⟨7, 0⟩] exNoc (some exIcac) := by decide
+example : [(exRoot, exNoc, some exIcac), (exRoot, exNoc, some exIcac)].foldl (installStep exT 9) [⟨7, 3⟩] =
+    [⟨7, 3⟩, ⟨7, 0⟩] := by rfl
 -- hypotheses of the lemmas are satisfiable on the mutated chains
 example : ({ exNoc with sigBy := none } : Cert) ∈ pathOf { exNoc with sigBy := none } (some exIcac) exFabric.root := by decide
 example : exIcac ∈ (pathOf exNoc (some exIcac) exFabric.root).tail := by decide
